@@ -359,6 +359,25 @@ func (k *worker) runGroup(g Group) {
 				if g.OrderSensitive() {
 					w.Add("order_sensitive.repeated_runs", 1)
 				}
+			case g.Gombok && i == repeats(w.Tier, g.OrderSensitive()):
+				// FROM SCRATCH: every file the directives of this directory (re)write is deleted first, then ONE run
+				// must reproduce the committed files (a first generation reaches the fixpoint)
+				kind = "from-scratch"
+				k.needP0(ds)
+				if err := restore(k.tree, k.base, k.sh.Base); err != nil {
+					panic(err)
+				}
+				k.post0 = false
+				deleted := 0
+				for f := range k.p0.writtenSet() {
+					if os.Remove(filepath.Join(k.tree, filepath.FromSlash(f))) == nil {
+						deleted++
+					}
+				}
+				w.Add("from_scratch.generated_files_deleted", int64(deleted))
+				cur = k.pass(k.tree, ds, func(int) int { return k.procs(i) }, true)
+				k.judgeFromScratch(i, g.Dir, ds, cur, witness)
+				w.Add("from_scratch.passes", 1)
 			default:
 				k.needP0(ds)
 				if err := restore(k.tree, k.base, k.sh.Base); err != nil {
@@ -443,6 +462,53 @@ func (k *worker) judgeRepeat(i int, dir string, ds []Directive, p *passRes, same
 			k.w.Violation(i, gen+"/"+d.Path+"/not-idempotent",
 				fmt.Sprintf("running %s in %s again on top of its own output changes it: %s", gen, dir, what), witness())
 		}
+	}
+}
+
+// fromScratchExceptions: gombok directories of the repository for which ONE run from scratch (all
+// generated files deleted) does not reproduce the committed files on the unchanged tree, established
+// by running this check on it (see Assumptions): hand-written code of the package uses members that
+// only exist in the generated files, so the first load of the package is incomplete. They are run and
+// recorded (from_scratch.exception_differs / _holds), not judged.
+var fromScratchExceptions = map[string]string{}
+
+// judgeFromScratch: one run over the directory without its generated files must reproduce the snapshot.
+func (k *worker) judgeFromScratch(i int, dir string, ds []Directive, p *passRes, witness func() any) {
+	diffs := k.compare(p.After, k.base)
+	if why, ok := fromScratchExceptions[dir]; ok {
+		if len(diffs) > 0 {
+			k.w.Add("from_scratch.exception_differs", 1)
+			k.w.Note(fmt.Sprintf("from scratch: %s is a listed exception (%s): one run leaves %d paths different, e.g. %s", dir, why, len(diffs), diffs[0].Path))
+		} else {
+			k.w.Add("from_scratch.exception_holds", 1)
+		}
+		return
+	}
+	if len(diffs) == 0 {
+		k.w.Add("from_scratch.directories_reproduced_by_one_run", 1)
+	}
+	for _, d := range diffs {
+		if d.Path == "go.mod" || d.Path == "go.sum" {
+			continue
+		}
+		gen := p.generatorOf(d.Path, ds[0].Generator)
+		what := ""
+		switch d.Kind {
+		case "differs":
+			what = fmt.Sprintf("writes %s with different bytes than the committed file\n%s", d.Path, firstDiff(k.readBase(d.Path), p.Content[d.Path], "committed", "first generation"))
+		case "new":
+			what = fmt.Sprintf("writes %s, which is not in the working tree", d.Path)
+		case "missing":
+			what = fmt.Sprintf("does not write %s (a second run does)", d.Path)
+		}
+		detail := fmt.Sprintf("after deleting the generated files of %s, ONE run of its directives %s", dir, what)
+		for _, r := range p.Runs {
+			detail += fmt.Sprintf("\n  %s (GOMAXPROCS=%d, exit %d) wrote %v", r.D.String(), r.Procs, r.Exit, r.Written)
+			if r.Exit != 0 || len(r.Written) == 0 {
+				detail += "\n" + indent(tailStr(r.Output, 600), "    | ")
+			}
+		}
+		k.w.Violation(i, gen+"/"+dir+"/first-generation-not-fixpoint", detail, witness())
 	}
 }
 
